@@ -57,7 +57,11 @@ func checkBlockRun(t stats.TB, part string, b *evmgen.BlockCase, r *evmgen.Block
 		stats.Violation(t, part, fp, msg, map[string]any{"block": b.Dump(), "configuration": r.Config, "outcomes": evmgen.BlockSignature(r.Steps), "balance_changes": changes})
 	}
 	if r.Broken != "" {
-		viol("C02/negative-balance/post-state-unhashable", fmt.Sprintf("[%s configuration] the post-state of the block cannot be hashed: %s", r.Config, r.Broken))
+		fp := "C02/negative-balance/post-state-unhashable"
+		if evmgen.BrokenBySuicideSize(r.Broken) {
+			fp = evmgen.FpSuicideSize
+		}
+		viol(fp, fmt.Sprintf("[%s configuration] the post-state of the block cannot be hashed: %s", r.Config, r.Broken))
 		return
 	}
 	for a, v := range r.End.ByAddr {
